@@ -119,6 +119,10 @@ func DeepEqual(x, y interface{}) bool {
 	flx, okx := parseFloatIfOk(typx)
 	fly, oky := parseFloatIfOk(typy)
 	if okx && oky {
+		if typx.Kind() == reflect.Float32 || typy.Kind() == reflect.Float32 {
+			// a FLOAT column read as float32 equals the float64 image of the same stored value
+			return float32(flx) == float32(fly)
+		}
 		return flx == fly
 	}
 	// a DECIMAL column is a number in the images but arrives as text when the current row is scanned
